@@ -271,6 +271,9 @@ fn instances(tier: Tier) -> Vec<(InstRep, Vec<Vec<(u64, f64)>>)> {
                             let mut v = VarRep::new(8, KIND_CONTINUOUS, None);
                             v.substituted = Some(1.5);
                             vars.push(v);
+                            // two unused variables listed after the fixed one, never assigned by a state
+                            vars.push(VarRep::new(20, KIND_CONTINUOUS, Some((2.0, 5.0))));
+                            vars.push(VarRep::new(21, KIND_INTEGER, Some((-4.0, -1.0))));
                         }
                         let mut deps = vec![];
                         if dep >= 1 {
